@@ -320,7 +320,7 @@ func verifCheckChannels2(out []*verifReq, where string) {
 }
 
 func VerifC09_Mixed_N2() { verifInFlightHistory2(2, verifDepth(), 2, false) }
-func VerifC09_Mixed_N3() { verifInFlightHistory2(3, verifDepth(), 2, false) }
+func VerifC09_Mixed_N3() { verifInFlightHistory2(3, 4, 2, false) } // depth 4 in both tiers: depth 5 exceeds the path limit
 func VerifC09_Overflow_N1() { verifInFlightHistory2(1, verifDepth()+1, 0, true) }
 func VerifC10_Overflow_N1() { verifInFlightHistory2(1, verifDepth()+1, 0, true) }
 func VerifC10_Overflow_N2() { verifInFlightHistory2(2, verifDepth()+1, 0, true) }
@@ -328,7 +328,7 @@ func VerifC10_Mixed_N2()    { verifInFlightHistory2(2, verifDepth(), 2, false) }
 
 func verifDepth() int {
 	if verifThorough {
-		return 6
+		return 5
 	}
 	return 4
 }
